@@ -144,7 +144,12 @@ class World(WorldBase):
             path = rng.choice(sw["paths"])
             if path == src:
                 return self.gen_produce(rng)
-            return {"op": "stub_weights", "src": src, "path": path, "order": rng.randrange(1 << 30)}
+            op = {"op": "stub_weights", "src": src, "path": path, "order": rng.randrange(1 << 30)}
+            if rng.random() < 0.4:
+                # a peer that lists the same neighbours with its rows in its own (spatial block)
+                # order, as voro++ does: the id column, not the row number, says whose row it is
+                op["nl"] = True
+            return op
         if kind == "open_reader":
             return {"op": "open_reader", "path": rng.choice(sorted(live))}
         if kind == "read_frame":
@@ -183,7 +188,7 @@ class World(WorldBase):
                 "cell": "ortho" if exact else rng.choice(["ortho", "tri"]),
                 "layout": rng.choice(["random", "lattice", "cluster"]),
                 "ppp": [rng.choice([1, 1, 1, 0]) for _ in range(ndim)],
-                "cells": rng.choice(["const", "const", "vary"]),
+                "cells": rng.choice(["const", "const", "vary", "vary", "shear", "cycle"]),
                 "nvary": rng.random() < 0.25,
                 "tvary": rng.random() < 0.2,
                 "subseed": rng.randrange(1 << 40),
@@ -415,20 +420,20 @@ class World(WorldBase):
         # the stub peer writes with plain buffered I/O outside the simulated disk faults
         with simio.real_open(path, "w", encoding="utf-8") as f:
             for rows in self.files[src]["frames"]:
-                f.write("id   cn   edgelengthlist\n")
+                f.write("id   cn   neighborlist\n" if op.get("nl") else "id   cn   edgelengthlist\n")
                 order = rng.permutation(len(rows))
                 out = []
                 for k in order:
-                    pid, cn, _ = rows[k]
-                    w = [f"{x:.6f}" for x in rng.uniform(0.01, 3.0, size=cn)]
+                    pid, cn, items = rows[k]
+                    w = list(items) if op.get("nl") else [f"{x:.6f}" for x in rng.uniform(0.01, 3.0, size=cn)]
                     f.write(f"{pid} {cn} " + " ".join(w) + "\n")
                     out.append((pid, cn, w))
                 frames.append(out)
         self.gen_no[path] = self.gen_no.get(path, 0) + 1
-        self.files[path] = {"cfg": self.files[src]["cfg"], "kind": "weights", "frames": frames,
-                            "weights": True, "gen": self.gen_no[path]}
+        self.files[path] = {"cfg": self.files[src]["cfg"], "kind": "stub_nl" if op.get("nl") else "weights", "frames": frames,
+                            "weights": not op.get("nl"), "gen": self.gen_no[path]}
         self.ack(path, "stub_weights")
-        self.ctx.probe("weights_file_written")
+        self.ctx.probe("shuffled_neighbour_file_written" if op.get("nl") else "weights_file_written")
         return f"{path} weights of {src}"
 
     def do_open_reader(self, op):
